@@ -81,6 +81,7 @@ type RpcCase struct {
 	Exact    bool     `json:"exact"`    // sizes are exact wire sizes in the case's codec
 	TruncK   int      `json:"trunck"`   // with Trunc > 0: number of complete client messages kept
 	Corrupt  bool     `json:"corrupt"`  // gRPC: the first frame claims to be compressed but holds garbage
+	WsClose  bool     `json:"wsclose"`  // ws: the client sends a close frame (1000) after its messages; else it waits for the server's
 	H2       bool     `json:"h2"`       // gRPC-web / HTTP / Twirp request arrives over HTTP/2 (gRPC always does)
 	Boundary int      `json:"boundary"` // >0: the first message is 8+Boundary-1 small records and the receive limit is exactly 8 records
 }
@@ -124,7 +125,8 @@ type ClientObs struct {
 	Status  StatusObs `json:"status"`
 	Hdr     MD        `json:"hdr"`
 	Trl     MD        `json:"trl"`
-	Clean   bool      `json:"clean"` // response stream well-formed to the end
+	Clean   bool      `json:"clean"`  // response stream well-formed to the end
+	WsFits  bool      `json:"wsfits"` // ws: the status message fits into a close frame (<= 123 bytes)
 	Note    string    `json:"note"`
 	BodyLen int       `json:"bodylen"`
 }
@@ -312,11 +314,16 @@ func testService() ServiceSpec {
 		r.Body = "*"
 		return r
 	}
+	both := func(path string) *annotations.HttpRule { // POST /t/x and WEBSOCKET /w/x
+		r := body("POST", "/t/"+path)
+		r.AdditionalBindings = []*annotations.HttpRule{body("WEBSOCKET", "/w/"+path)}
+		return r
+	}
 	return ServiceSpec{Name: "T", Methods: []MethodSpec{
-		{Name: "Unary", Rule: body("POST", "/t/unary")},
-		{Name: "CStream", ClientStream: true, Rule: body("POST", "/t/cstream")},
-		{Name: "SStream", ServerStream: true, Rule: body("POST", "/t/sstream")},
-		{Name: "Bidi", ClientStream: true, ServerStream: true, Rule: body("POST", "/t/bidi")},
+		{Name: "Unary", Rule: both("unary")},
+		{Name: "CStream", ClientStream: true, Rule: both("cstream")},
+		{Name: "SStream", ServerStream: true, Rule: both("sstream")},
+		{Name: "Bidi", ClientStream: true, ServerStream: true, Rule: both("bidi")},
 	}}
 }
 
@@ -1179,6 +1186,16 @@ func runRpcCase(c RpcCase) RpcEv {
 	ev.ReqWant = c.ReqWant
 	if ev.ReqWant == nil {
 		ev.ReqWant = MD{}
+	}
+	if c.Proto == "ws" {
+		e.runWs(&ev)
+		e.mu.Lock()
+		ev.H = e.h
+		ev.Stats = append(ev.Stats, e.stats...)
+		ev.ICalls = append(ev.ICalls, e.icalls...)
+		e.mu.Unlock()
+		ev.H.MD = hexBinRaw(filterMD(ev.H.MD))
+		return ev
 	}
 	req := e.buildRequest()
 	if c.Trunc > 0 && !e.cutInside && c.TruncK <= len(ev.Sent) {
